@@ -12,6 +12,7 @@ __all__ = ['Selector']
 
 import contextlib
 import dataclasses
+import re
 import xml.dom
 
 import cssutils
@@ -524,6 +525,9 @@ class New(cssutils.util._BaseClass):
         }
 
 
+_identlike = re.compile(r'-?[A-Za-z_][A-Za-z0-9_-]*\Z').match
+
+
 class Selector(cssutils.util.Base2):
     """
     (cssutils) a single selector in a :class:`~cssutils.css.SelectorList`
@@ -809,7 +813,27 @@ class Selector(cssutils.util.Base2):
                 or (av == '|' and at == 'CHAR' and (bt == IDENT or bv == '*'))
             )
 
-        tokens = list(tokenizer)
+        tokens = []
+        glued = None
+        for t in tokenizer:
+            rest = t[1][2:]
+            if (
+                glued
+                and t[0] == IDENT
+                and (t[2], t[3]) == (glued[2], glued[3] + len(glued[1]))
+            ):
+                # "u+div" came as "u+d" and "iv"
+                tokens[-1] = (IDENT, glued[1] + t[1], glued[2], glued[3])
+                glued = None
+            elif t[0] == 'UNICODE-RANGE' and _identlike(rest):
+                # "u+a" in a selector: the type selectors u and a
+                tokens.append((IDENT, t[1][0], t[2], t[3]))
+                tokens.append(('CHAR', '+', t[2], t[3] + 1))
+                tokens.append((IDENT, rest, t[2], t[3] + 2))
+                glued = tokens[-1]
+            else:
+                tokens.append(t)
+                glued = None
 
         def nextother(i):
             "index of the next token which is no comment"
